@@ -91,10 +91,7 @@ class Rig:
 
                 def handle(self, device):
                     return self.sink(device)
-            import gc
-            cb = Handler(self.on_device).handle
-            gc.collect()
-            return cb
+            return Handler(self.on_device).handle      # CPython frees an unreferenced owner at once (refcount)
         if form == "falsy-callable":
             # a callable collection that is empty (falsy) when the bridge is built
             rig = self
@@ -142,9 +139,6 @@ class Rig:
 
     async def start(self, form="bound-method"):
         self.make_bridge(form)
-        if form == "unreferenced-owner":
-            import gc
-            gc.collect()
         self.observe()
         await self.bridge.start()
 
